@@ -8,6 +8,7 @@ import sympy as sp
 from ..core import AnalysisError, norm
 from .. import symx, spec, aud
 from ..symx import Tx, E, S, fmt_cond, c_and, c_or, c_not, cond_atoms, eval_cond, rows
+from ..canon import expand_locals
 from ..astutil import walk_local, stores, parent, ancestors, attr_stores, dominates_structurally
 from ..cfg import paths, whole_collection
 
@@ -31,6 +32,7 @@ META = dict(
 META["text"] += " Also (R3) a child's best_ancestor is the least-estimate ancestor at both sites that create children; (R6) bookkeeping the subsumption pass relies on: a discarded equivalent / subsumed assertion hands its rules_out to the one kept, and NEBAssertion.subsumes disposes of a ruled-out tail iff the loser outlasts the winner in it (decision table); (R7 = C14.R4) vote_for_cand, whose sums the NEN tallies are, is 1 iff the candidate stands, is ranked, and no other standing candidate is ranked before it."
 META["text"] += " R6 also covers the tree vocabulary of the search: is_descendent_of (strictly longer tail ending in the ancestor's), is_suffix, and replace_descendents (every descendant removed, from the back, then the root inserted)."
 META["text"] += " R6 also: before the search the frontier holds [d, c] for every candidate c other than the reported-winner argument and every d != c. R7 also borrows C14.R3 (the NEB predicates' tables)."
+META["text"] += " R6 also: NENAssertion.subsumes holds iff every tail the other assertion rules out has one of this assertion's tails as a suffix (forall-exists)."
 
 
 def run(chk):
@@ -676,3 +678,58 @@ def r6(chk):
     chk.ob("C04.R6", f"{RA}:compute_raire_assertions", "initial-frontier-has-every-alternative-winner", ok,
            "before the search starts the frontier holds the node [d, c] for every candidate c other than the reported winner passed "
            "in and every candidate d other than c", node=ins[0] if ins else fn, strength="N", **detail)
+
+
+    # NENAssertion.subsumes: every tail that `other` disposes of must be covered (have as a suffix) by a tail of this assertion --
+    # "for all o there is an ro", not "there is a pair".  Two spellings are accepted: the filtering loop (the tails of `other` that
+    # no tail of self covers are kept; the answer is that nothing is left) and all(any(..)).
+    ns = chk.fn(RU, "NENAssertion.subsumes")
+    other_p = ns.args.args[1].arg if len(ns.args.args) > 1 else "other"
+    ok = False
+    detail = {}
+    rets = [r for r in walk_local(ns) if isinstance(r, ast.Return)]
+    loops = [l for l in ns.body if isinstance(l, ast.For) and norm(l.iter) == "self.rules_out"]
+    guard_neb = any(isinstance(st, ast.If) and "NEBAssertion" in norm(st.test) and len(st.body) == 1 and isinstance(st.body[0], ast.Return)
+                    and norm(st.body[0].value) == "False" for st in ns.body)
+    if len(loops) == 1:
+        l = loops[0]
+        ro = norm(l.target)
+        filt = [st for st in l.body if isinstance(st, ast.Assign) and isinstance(st.value, ast.ListComp)]
+        if len(filt) == 1 and isinstance(filt[0].targets[0], ast.Name):
+            T = filt[0].targets[0].id
+            lc = filt[0].value
+            g = lc.generators[0] if len(lc.generators) == 1 else None
+            shape = g is not None and norm(g.iter) == T and norm(lc.elt) == norm(g.target) and len(g.ifs) == 1 \
+                and aud.cond_equiv(Tx().cond(g.ifs[0]), symx.c_not(Tx().cond(ast.parse(f"is_suffix({ro}, {norm(g.target)})", mode="eval").body)))[0]
+            init = [st for st in ns.body if isinstance(st, ast.Assign) and norm(st.targets[0]) == T and ns.body.index(st) < ns.body.index(l)]
+            init_ok = len(init) == 1 and norm(init[0].value) in (f"set({other_p}.rules_out)", f"list({other_p}.rules_out)", f"{other_p}.rules_out")
+            others = [st for st in l.body if st is not filt[0] and not (isinstance(st, ast.Assign) and isinstance(st.value, ast.Constant))]
+            # the answer: nothing is left uncovered (and, for the set-initialised spelling, at least one pass was made)
+            ans = False
+            if len(rets) == 2:
+                final = [r for r in rets if parent(r) is ns][-1]
+                v_ = expand_locals(final.value, ns, stop=(T,))
+                parts = list(v_.values) if isinstance(v_, ast.BoolOp) and isinstance(v_.op, ast.And) else [v_]
+                flags = {norm(st.targets[0]) for st in l.body if isinstance(st, ast.Assign) and isinstance(st.value, ast.Constant)
+                         and st.value.value is True}
+                empt = [p_ for p_ in parts if norm(p_) in (f"{T}==[]", f"len({T})==0", f"not{T}", f"[]=={T}", f"0==len({T})")]
+                rest_ = [p_ for p_ in parts if p_ not in empt]
+                # every other conjunct may only be a "the loop ran" flag (set to True inside the loop, False before it)
+                ans = len(empt) == 1 and all(isinstance(p_, ast.Name) and p_.id in flags for p_ in rest_)
+            ok = shape and init_ok and not others and ans and not [x for x in walk_local(l) if isinstance(x, (ast.Break, ast.Continue, ast.Return))]
+            detail = dict(filter=norm(lc)[:120], answer=norm(rets[-1].value) if rets else None)
+    elif rets:
+        v = rets[-1].value
+        if isinstance(v, ast.Call) and norm(v.func) == "all" and len(v.args) == 1 and isinstance(v.args[0], (ast.GeneratorExp, ast.ListComp)) \
+                and len(v.args[0].generators) == 1:
+            og = v.args[0].generators[0]
+            inner = v.args[0].elt
+            if isinstance(inner, ast.Call) and norm(inner.func) == "any" and len(inner.args) == 1 and isinstance(inner.args[0], (ast.GeneratorExp, ast.ListComp)) \
+                    and len(inner.args[0].generators) == 1:
+                ig = inner.args[0].generators[0]
+                ok = norm(og.iter) == f"{other_p}.rules_out" and norm(ig.iter) == "self.rules_out" and not og.ifs and not ig.ifs \
+                    and norm(inner.args[0].elt) == f"is_suffix({norm(ig.target)},{norm(og.target)})"
+        detail = dict(answer=norm(v)[:160])
+    chk.ob("C04.R6", f"{RU}:NENAssertion.subsumes", "covers-every-tail-of-the-other", ok and guard_neb,
+           "an NEN assertion subsumes another only if *every* tail the other disposes of ends in a tail this one disposes of (and never "
+           "an NEB assertion)", node=ns, strength="N", **detail)
